@@ -14,7 +14,7 @@ func init() {
 	register(&PropDef{
 		ID:    "C53",
 		Pkgs:  []string{memp, imemp},
-		Claim: "Decides the structural part: buffer.Free returns the original slice to the pool only on the arm where the decremented reference count is exactly zero, the buffer is its own root and still has a pool, passes origData, and clears the pool field right after (so a second Put through this object is impossible); a negative count panics and a positive count has no effect; a derived buffer's last Free frees its root instead; the pool's Put is invoked nowhere else for buffer-owned memory; every buffer object taken from the object pool gets count 1, and whenever a buffer other than itself is installed as a new buffer's root (Slice, split) that root's count was incremented first on the same path; reads and Slice/split of a freed buffer panic; the Reader adjusts its remaining length and in-buffer index by the same amount and frees exactly the exhausted first buffer while dropping it from its list; pooled slices handed out again are cleared over their full capacity on the zeroing arm before being resliced, the public clean constructors select zeroing and the Dirty ones do not; Get returns a slice of exactly the requested length (fresh make or reslice [:size] of a pooled slice) and the sized pool keeps only slices with at least its capacity.",
+		Claim: "Decides the structural part: buffer.Free returns the original slice to the pool only on the arm where the decremented reference count is exactly zero, the buffer is its own root and still has a pool, passes origData, and clears the pool field right after (so a second Put through this object is impossible); a negative count panics and a positive count has no effect; a derived buffer's last Free frees its root instead; the pool's Put is invoked nowhere else for buffer-owned memory; every buffer object taken from the object pool gets count 1, and whenever a buffer other than itself is installed as a new buffer's root (Slice, split) that root's count was incremented first on the same path; reads and Slice/split of a freed buffer panic; the Reader adjusts its remaining length and in-buffer index by the same amount and frees exactly the exhausted first buffer while dropping it from its list; pooled slices handed out again are cleared over their full capacity on the zeroing arm before being resliced, the public clean constructors select zeroing and the Dirty ones do not; Get returns a slice of exactly the requested length (fresh make or reslice [:size] of a pooled slice) and the sized pool keeps only slices with at least its capacity. Ref succeeds only above one, Slice returns the receiver only for the full range and with a new reference, read frees the buffer exactly when it was consumed completely, and the Reader's loop reads the first buffer only while data remains and room is left.",
 		NotDecided:  []string{"exactly-once release over arbitrary sequences of Ref/Free/Slice/split by callers (needs ownership typing of all users)", "that user code does not read a buffer after freeing it"},
 		Assumptions: []string{"sync.Pool and sync/atomic semantics"},
 		Technique:   "static analysis: dominating guards and refusing-arm unreachability on go/ssa, who-may-call, pairing of root installation with reference increments (conservation), must-pass-through for zeroing, value-shape checks of returned slices",
